@@ -303,7 +303,22 @@ func runC17Wire(c *fw.Ctx, id string, v refmatch.Variant, rdns, viaHTTP bool, n 
 			}
 		} else {
 			var rerr error
-			out, rerr = env.run(context.Background())
+			ctx := context.Background()
+			if v.Proto != "icmp" && n%2 == 1 {
+				// the caller's context ends before or during the request (udp and tcp runs never look at it and complete):
+				// what is returned is still a finished result, so it is still redacted when redaction was asked for
+				cctx, cancel := context.WithCancel(ctx)
+				defer cancel()
+				if n%4 == 1 {
+					cancel()
+				} else {
+					tm := time.AfterFunc(60*time.Millisecond, cancel)
+					defer tm.Stop()
+				}
+				ctx = cctx
+				c.Count("requests_with_ended_context", 1)
+			}
+			out, rerr = env.run(ctx)
 			if rerr != nil {
 				c.Violate("C17", "run-failed", fmt.Sprintf("%s: %v", id, rerr), nil)
 				if rs != nil {
